@@ -50,6 +50,46 @@ Definition py_bool_to_int (b : bool) : Z := if b then 1 else 0.
 Fixpoint py_in (x : Z) (l : list Z) : bool :=
   match l with [] => false | y :: r => (x =? y) || py_in x r end.
 
+(* for x in range(start, stop, step): the loop state is threaded through the body; range() with step 0 raises
+   ValueError.  Fuel = the distance to run: with |step| >= 1 the loop has ended when it is used up (at fuel 0 the
+   index has reached stop, so returning the state there is the loop's result, not a truncation). *)
+Fixpoint for_range_up {S} (fuel : nat) (i stop step : Z) (body : Z -> S -> M S) (s : S) : M S :=
+  match fuel with
+  | O => ret s
+  | Datatypes.S f => if i <? stop then bind (body i s) (fun s' => for_range_up f (i + step) stop step body s') else ret s
+  end.
+Fixpoint for_range_down {S} (fuel : nat) (i stop step : Z) (body : Z -> S -> M S) (s : S) : M S :=
+  match fuel with
+  | O => ret s
+  | Datatypes.S f => if stop <? i then bind (body i s) (fun s' => for_range_down f (i + step) stop step body s') else ret s
+  end.
+Definition py_for_range {S} (start stop step : Z) (body : Z -> S -> M S) (s : S) : M S :=
+  if step =? 0 then raise
+  else if 0 <? step then for_range_up (Z.to_nat (stop - start)) start stop step body s
+  else for_range_down (Z.to_nat (start - stop)) start stop step body s.
+(* lst[k] and lst[k] = x for a constant k >= 0: IndexError when out of range *)
+Definition py_getitem {A} (l : list A) (k : Z) : M A :=
+  fun ds => match nth_error l (Z.to_nat k) with Some x => Ok x ds | None => Exc end.
+Fixpoint set_nth {A} (l : list A) (k : nat) (x : A) : option (list A) :=
+  match l, k with
+  | [], _ => None
+  | _ :: r, O => Some (x :: r)
+  | y :: r, Datatypes.S k' => match set_nth r k' x with Some r' => Some (y :: r') | None => None end
+  end.
+Definition py_setitem {A} (l : list A) (k : Z) (x : A) : M (list A) :=
+  fun ds => match set_nth l (Z.to_nat k) x with Some l' => Ok l' ds | None => Exc end.
+
+(* iterating: list(range(a, b)) and `for x in <list>: ... yield ...` (a generator = the list of what it yields; the
+   body of the loop may itself call things, so the loop is monadic, left to right) *)
+Fixpoint range_list_fuel (fuel : nat) (a : Z) : list Z :=
+  match fuel with O => [] | Datatypes.S f => a :: range_list_fuel f (a + 1) end.
+Definition py_range_list (a b : Z) : list Z := range_list_fuel (Z.to_nat (b - a)) a.
+Fixpoint py_for_list {A B} (l : list A) (f : A -> M (list B)) : M (list B) :=
+  match l with
+  | [] => ret []
+  | a :: r => bind (f a) (fun xs => bind (py_for_list r f) (fun ys => ret (xs ++ ys)))
+  end.
+
 Declare Scope py_scope.
 Notation "x <- m ;; f" := (bind m (fun x => f)) (at level 61, m at next level, right associativity) : py_scope.
 Notation "' pat <- m ;; f" := (bind m (fun x => match x with pat => f end))
